@@ -256,7 +256,7 @@ struct RRTstarX : og::RRTstar
                         " ng=" + std::to_string(goalMotions_.size()) + " bg=" +
                         (bestGoalMotion_ ? std::to_string(idx.at(bestGoalMotion_)) : std::string("-")) + " best=" + vp::bits(bestCost_.value()) +
                         " q=" + std::to_string(gLog.nq) + " qh=" + std::to_string(gLog.qh) + " th=" + std::to_string(th) + " brk=" + (brk ? "1" : "0") +
-                        " tie=0 starved=0 fuel=0";
+                        " tie=0 starved=0 fuel=0 cmx=0";
         gLog.nq = 0;
         gLog.qh = FNV0;
         return s;
@@ -381,6 +381,16 @@ static bool doRun(const std::vector<std::string> &t)
     });
     auto si = std::make_shared<ob::SpaceInformation>(space);
     si->setStateValidityChecker(std::make_shared<Checker>(si, envBoxes((unsigned)*env, gDim)));
+    // the environment, for the model's own recomputation of every checkMotion answer
+    std::string boxSpec;
+    for (auto &bx : envBoxes((unsigned)*env, gDim))
+    {
+        boxSpec += boxSpec.empty() ? "" : "|";
+        for (unsigned i = 0; i < gDim; ++i)
+            boxSpec += std::string(i ? "," : "") + vp::bits(bx.lo[i]) + "," + vp::bits(bx.hi[i]);
+    }
+    if (boxSpec.empty())
+        boxSpec = "-";
     auto recmv = std::make_shared<RecMV>(si);
     si->setMotionValidator(recmv);
     si->setup();
@@ -419,7 +429,7 @@ static bool doRun(const std::vector<std::string> &t)
 
     std::cout << "S rrtstar dim=" << gDim << " obj=" << kind << " maxdist=" << vp::bits(planner->maxDist()) << " krrt=" << vp::bits(planner->krrt())
               << " gbias=" << vp::bits(planner->gbias()) << " gthr=" << vp::bits(*gthr) << " thr=" << vp::bits(obj->getCostThreshold().value())
-              << " goal=" << stateBits(goal.get(), ",") << "\n";
+              << " goal=" << stateBits(goal.get(), ",") << " lvs=" << vp::bits(space->getLongestValidSegmentLength()) << " boxes=" << boxSpec << "\n";
     std::cout << "S start " << gDim << " " << stateBits(start.get(), " ") << "\nR ok n=1\n";
 
     unsigned prevN = 1;
